@@ -1336,7 +1336,8 @@ class Process(StateMachine, persistence.Savable, metaclass=ProcessStateMachineMe
         """
         assert not self.has_terminated(), 'Cannot step, already terminated'
 
-        if self.paused and self._paused is not None:
+        while self._paused is not None:
+            # Checked again after waking up: the process may have been paused again before this task got to run
             await self._paused
 
         try:
